@@ -238,8 +238,14 @@ impl Monitor for RegMon {
             if idle {
                 rep.count("R8.reg_ngp_while_idle");
                 let sent = rec.rx.iter().any(|(cid, _, b)| *cid == Some(l) && rc::is_reg1(b));
-                if !sent && !rec.broken.contains(&l) {
-                    rep.violation("C07.R8.no-reg1-on-reg-ngp", format!("arm#{} t={t}: REG_NGP on link {l:x} with no link connected, no attempt open and probing over did not produce a REG1 on that link", rec.no));
+                // An IMMEDIATE REG1 in answer to REG_NGP is what the code does today, but the property only requires
+                // that a new attempt CAN start (the 4 s abandon; C08 bounds the recovery time): an implementation that
+                // honours a hold-off after REG_ERR first is just as lawful (false alarm on benign patch L-4,
+                // DESIGN.md 9.4b). Information only.
+                if sent {
+                    rep.count("R8.info.immediate_reg1_on_reg_ngp");
+                } else if !rec.broken.contains(&l) {
+                    rep.count("R8.info.no_immediate_reg1_on_reg_ngp");
                 }
             }
         }
